@@ -3,12 +3,47 @@
 import json, sys
 
 ENGINE_A = "Engine A: generated lexer definitions compiled by the real macro + rustc, run against an independent reference lexer"
+TRUST_A = "Trusted: rustc/cargo, proptest, unicode-width, and the oracle crate (Brzozowski-derivative reference lexer with virtual end-of-input symbol, cross-checked against a second, recursion-based reference). Definitions are well-formed by construction (no nullable rule, no empty class, `$` only in tail position)."
+def A(tech, text, ref):
+    return (tech, text, TRUST_A, ref)
+DIFF = "proptest-generated lexer definitions compiled by the real macro, proptest-generated inputs/scripts (bounded-exhaustive + reference-guided + random), differential against an independent derivative-based reference lexer"
 CHECKS = {
-    # id: (technique, level text, level note, design ref)
-    "C01": ("proptest-generated definitions and inputs (bounded-exhaustive + reference-guided + random), differential against a derivative-based reference lexer",
-            "Generated-input search: hundreds (quick) to thousands (thorough) of random rule sets, each run on all strings up to a length over its class alphabet plus sampled near-miss inputs; every (rule, lexeme) sequence is compared with a maximal-munch reference. Finds priority/rewind defects of density ~1 definition in 50 within seconds; gives no proof of absence.",
-            "Trusted: rustc/cargo, proptest, the oracle crate (Brzozowski-derivative reference, cross-checked by a second reference). Definitions are well-formed by construction.",
-            "DESIGN.md section 4, C01"),
+    "C01": A(DIFF,
+        "Generated-input search: hundreds (quick) to thousands (thorough) of random rule sets, each run on all strings up to a length over its class alphabet plus sampled near-miss inputs; every (rule, lexeme) sequence is compared with a maximal-munch reference. Finds priority/rewind defects of density ~1 definition in 50 within seconds; no proof of absence.",
+        "DESIGN.md section 4, C01"),
+    "C03": A(DIFF + "; plus a reference-free invariant over the observed action history (set discipline)",
+        "Generated definitions with 2-6 rule sets and scripted switch/continue/return decisions; traces compared with the reference up to the first failure, and over the whole trace the invariant 'every rule that ran belongs to the set made active by the last switch or failure'. Exercises state renumbering after simplification/inlining at many offsets; no proof.",
+        "DESIGN.md section 4, C03"),
+    "C04": A(DIFF,
+        "Generated right contexts of every regex shape at every priority position, mixed with context-free rules; tokens, byte spans and fall-through behaviour compared with the reference; a context-bearing definition that fails to expand/compile is a violation.",
+        "DESIGN.md section 4, C04"),
+    "C05": A(DIFF + "; every prefix of every input",
+        "Every generated input is cut at every position so that the input ends inside lexemes, after matches, after rewinds and in every rule set; `$` preference, Init/non-Init end-of-input behaviour and the fused stream are compared with a reference that treats end-of-input as a virtual symbol.",
+        "DESIGN.md section 4, C05"),
+    "C06": A(DIFF + "; plus reference-free validity predicates (char boundaries, slice == match_(), ordered disjoint lexemes, Loc == rescan from byte 0)",
+        "Unicode alphabet (newline, tab, 2/3/4-byte, wide, zero-width) in definitions and inputs; every token, logged match_loc()/match_() and error location is checked by predicates that do not depend on the reference lexer and additionally compared with the reference.",
+        "DESIGN.md section 4, C06"),
+    "C07": A(DIFF,
+        "Fallible rules with scripted Err decisions; error kind, payload and byte location of every error up to the first InvalidToken compared with the reference; error-vs-token confusion is a mismatch.",
+        "DESIGN.md section 4, C07"),
+    "C08": A(DIFF + " restricted to what follows the first InvalidToken",
+        "Multi-rule-set definitions with switches before failures and unlexable stretches in the inputs; everything after the first failure (spans expose the resume position, rule ids the active rule set) compared with the reference continuation from Init.",
+        "DESIGN.md section 4, C08"),
+    "C09": ("proptest-generated definitions of all profiles and inputs incl. arbitrary scalars, empty, repeated-character, unlexable-only and 10^4-character inputs through all constructors; oracle = bounds and absence of panic/hang (no reference)",
+        "Robustness search: no panic/abort/hang (watchdog 20 s per case against microseconds of normal run time), items <= n+1, logged actions <= n+1 (budget enforced inside actions).",
+        "Trusted: rustc/cargo, proptest. Non-termination can only be observed as a budget overrun (4 orders of magnitude of slack).",
+        "DESIGN.md section 4, C09"),
+    "C10": A(DIFF + " on the action log kept in the user state",
+        "Every action kind assigned to rules, scripted decisions; the logged invocation sequence (rule, match_loc, match_(), peek) and token spans compared with the action-protocol model; sugar forms and their explicit spellings are compared with the same reference.",
+        "DESIGN.md section 4, C10"),
+    "C14": ("proptest-generated definitions/inputs/scripts; metamorphic: the same case through all four constructors and three iterator types must give pairwise identical traces",
+        "Pairwise equality of the six constructor variants' traces (tokens, full Locs, errors, action logs without match_()); no reference lexer involved.",
+        "Trusted: rustc/cargo, proptest; the user state's Default impl hands the same state to `new`/`new_from_iter`.",
+        "DESIGN.md section 4, C14"),
+    "C15": ("proptest-generated histories: (input, script, clone point, interleaving schedule); oracle = the uninterrupted run of the same lexer (self-consistency), plus run-twice determinism",
+        "Clone at every kind of point (start, inside, after errors/switches, after the final None) with random interleavings of original and clone; both must reproduce the uninterrupted stream and log.",
+        "Trusted: rustc/cargo, proptest. The user state is cloned by value.",
+        "DESIGN.md section 4, C15"),
 }
 NOT_YET = {}
 
